@@ -30,13 +30,14 @@ RBUF == 1   RFUEL == 8   RTMP == 9   RPA == 10   RTMP2 == 11
 IRegs == 2..7   DRegs == 12..14   FRegs == 15..16   LRegs == 17..18
 PRegs == 19..22   RPG == 23          \* pointers into the scratch area kept live over the whole body; address of gdat
 RIDX == 24 + (2 * NSlots)   \* long-lived index register (not Lean): inputs[1] & 1
+RCNT == 27 + (2 * NSlots)   \* counter of the post-increment loops (set to 0 in the prologue)
 RSAVE == 26 + (2 * NSlots)  \* holds the native caller's contents of the global variable's hard register during main
 GV == [k |-> "greg"]
 RVAL == 25 + (2 * NSlots)   \* long-lived rarely used value (not Lean): inputs[2] + 5
 MainRegTy == <<"i", "i", "i", "i", "i", "i", "i", "i", "i", "i", "i", "d", "d", "d", "f", "f", "ld", "ld", "i", "i", "i", "i", "i">>
              \o [i \in 1..NSlots |-> "i"]     \* one alloca pointer register per slot (24..): every such pointer has a single definition
              \o [i \in 1..NSlots |-> "i"]     \* one stack-mark register per slot (bstart/bend)
-             \o <<"i", "i", "i">>             \* RIDX, RVAL: long-lived, rarely used index (0 or 1) and value; RSAVE
+             \o <<"i", "i", "i", "i">>        \* RIDX, RVAL: long-lived, rarely used index (0 or 1) and value; RSAVE; RCNT
 Reg(r) == [k |-> "reg", r |-> r]
 Imm(w) == [k |-> "imm", w |-> w]
 DRef == [k |-> "dref", b |-> 2]       \* address of the module's bss item gdat (memory block 2)
@@ -59,7 +60,7 @@ Prologue ==
   \o [i \in 1..3 |-> InsIn("dmov", Reg(11 + i), <<Mem("d", 48 + (8 * (i - 1)), RBUF, 0, 1)>>)]
   \o [i \in 1..2 |-> InsIn("fmov", Reg(14 + i), <<Mem("f", 72 + (4 * (i - 1)), RBUF, 0, 1)>>)]
   \o [i \in 1..2 |-> InsIn("ldmov", Reg(16 + i), <<Mem("ld", 80 + (16 * (i - 1)), RBUF, 0, 1)>>)]
-  \o <<InsIn("mov", Reg(RFUEL), <<Imm(FromNat(FuelInit))>>), InsIn("mov", Reg(RTMP), <<Imm(Zero64)>>),
+  \o <<InsIn("mov", Reg(RFUEL), <<Imm(FromNat(FuelInit))>>), InsIn("mov", Reg(RCNT), <<Imm(Zero64)>>), InsIn("mov", Reg(RTMP), <<Imm(Zero64)>>),
        InsIn("mov", Reg(RTMP2), <<Imm(Zero64)>>)>>
   \o (IF Lean THEN <<>> ELSE
       [i \in 1..4 |-> InsIn("add", Reg(18 + i), <<Reg(RBUF), Imm(FromNat(120 + (8 * i)))>>)]      \* p_i = buf + 128, 136, 144, 152
@@ -215,11 +216,11 @@ Fmts == {"d", "f", "ld"}
 Pfx(fmt) == fmt
 
 KindsInt == {"ibin", "iun", "shift", "div", "br2", "br1", "loop", "ovf", "switch", "callg1", "callg2", "ext", "alloca", "jmpi", "idx",
-             "pld", "pst", "alloca2", "gcall", "dload", "lref1", "lref2", "addrst", "addrld", "addrcall", "bsblk", "rload", "rcall", "lref3", "ext2", "alloca3", "br1i", "divm", "pidxst"}
+             "pld", "pst", "alloca2", "gcall", "dload", "lref1", "lref2", "addrst", "addrld", "addrcall", "bsblk", "rload", "rcall", "lref3", "ext2", "alloca3", "br1i", "divm", "pidxst", "postinc"}
 KindsFp == {"fbin", "fcmp", "fbr", "i2f", "f2i", "fmovm", "f2f", "callg3", "addrfp", "callva"}
 (* "link": the constructs MIR_link rewrites (calls to inline, allocas, jumps and branch chains, memory operands) *)
 KindsLink == {"callg1", "callg2", "callg3", "ext", "alloca", "br2", "br1", "loop", "switch", "ibin", "idx", "jmpi", "ovf", "calla",
-              "callg6", "callg7", "gcall", "rblk", "blkv", "alloca2", "lref1", "lref2", "addrst", "addrcall", "bsblk", "callva", "rcall", "lref3", "ext2", "alloca3", "br1i", "divm"}
+              "callg6", "callg7", "gcall", "rblk", "blkv", "alloca2", "lref1", "lref2", "addrst", "addrcall", "bsblk", "callva", "rcall", "lref3", "ext2", "alloca3", "br1i", "divm", "postinc"}
 KindsOf == IF Vocab = "int" THEN KindsInt ELSE IF Vocab = "link" THEN KindsLink
          ELSE IF Vocab = "exec" THEN {"callg1", "callg2", "callg3", "calla", "ext", "icall", "icall5", "cb", "jmpi", "switch", "br2", "loop",
                                       "ibin", "alloca", "fbin", "idx", "callg6", "callg7", "gcall", "rblk", "blkv", "callg12", "callg13", "callg14", "fmovm", "lref1", "lref2", "addrcall", "addrld", "bsblk", "callva", "rload", "rcall", "lref3", "alloca3"}
@@ -252,6 +253,7 @@ Holes(k) ==
     [] k = "lref1" -> <<"fwd">>
     [] k = "lref2" -> <<"fwd", "anyslot">>
     [] k = "lref3" -> <<"fwd", "anyslot">>
+    [] k = "postinc" -> <<"ireg", "cntk">>
     [] k = "ext2" -> <<"extop", "extop", "idst", "isrc">>
     [] k = "alloca3" -> <<"asz1", "asz2", "isrc", "ireg">>
     [] k = "br1i" -> <<"br1op", "fwd", "bimm">>
@@ -318,7 +320,7 @@ Dom(h) ==
     [] h = "fdst" -> FDst(CurFmt) [] h = "fsrc" -> FSrc(CurFmt)
     [] h = "i2fop" -> {"i2", "ui2"}
     [] h = "preg" -> PRegs
-    [] h = "nva" -> 0..3
+    [] h = "nva" -> 0..3 [] h = "cntk" -> {2, 3, 5}
     [] h = "extop" -> {"ext8", "ext16", "ext32", "uext8", "uext16", "uext32"}
     [] h = "asz1" -> {4, 8, 12, 20} [] h = "asz2" -> {8, 16, 24, 40}
     [] h = "bimm" -> {Imm(<<0, 0, 1, 0>>), Imm(<<0, 0, 3, 0>>), Imm(<<1, 0, 1, 0>>), Imm(Zero64), Imm(One64), Imm(MinS64), Imm(<<0, 32768, 0, 0>>)}
@@ -407,6 +409,9 @@ Render(k, v) ==
                         InsIn("mov", Reg(RTMP), <<Mem("i64", 8 * NLr, RTMP, 0, 1)>>), InsIn("sub", Reg(RTMP), <<Reg(RTMP), Imm(One64)>>),
                         InsIn("add", Reg(RTMP2), <<Reg(RTMP2), Reg(RTMP)>>),
                         [op |-> "jmpi", s |-> <<Reg(RTMP2)>>, lr |-> [l |-> v[1], l2 |-> v[2], d |-> 1]]>>
+    \* `while (c++ < K) n++;` as one block that is its own predecessor: the branch uses the value from before the increment
+    [] k = "postinc" -> <<InsIn("mov", Reg(RTMP), <<Reg(RCNT)>>), InsIn("add", Reg(RCNT), <<Reg(RCNT), Imm(One64)>>),
+                          InsIn("add", v[1], <<v[1], Imm(One64)>>), Br("blt", slot, <<Reg(RTMP), Imm(FromNat(v[2]))>>)>>
     \* two extension insns in a row (the optimiser combines them)
     [] k = "ext2" -> <<InsIn(v[1], Reg(RTMP), <<v[4]>>), InsIn(v[2], v[3], <<Reg(RTMP)>>)>>
     \* adjacent allocas of constant sizes (link-time consolidation): both blocks are written at their ends and read back
